@@ -1,0 +1,23 @@
+//go:build verif
+
+package inmem
+
+import "github.com/acquirecloud/golibs/kvs"
+
+// VerifWaiterTable returns a snapshot of the WaitForVersionChange bookkeeping of an
+// in-memory storage: key -> number of waiters registered in the key's current
+// waiters group (read under the storage lock). It returns nil if s is not an
+// in-memory storage. Verification builds only (build tag verif).
+func VerifWaiterTable(s kvs.Storage) map[string]int {
+	svc, ok := s.(*service)
+	if !ok {
+		return nil
+	}
+	svc.lock.Lock()
+	defer svc.lock.Unlock()
+	res := make(map[string]int, len(svc.verChange))
+	for k, ws := range svc.verChange {
+		res[k] = ws.waiters
+	}
+	return res
+}
